@@ -71,10 +71,14 @@ class Layout:
     """files: posix path relative to the case root -> list of lines.
     The main file is 'b/main.conf'."""
 
-    def __init__(self):
+    def __init__(self, styled=False):
         self.files = {}
         self.serial = 0
         self.cuts = []
+        # how an %include line names its target: relative to the including
+        # file (default), './'-relative, by absolute path or by file: URL
+        self.styled = styled
+        self.ref_styles = {}
 
     def new_path(self, rng, place=None):
         self.serial += 1
@@ -88,7 +92,7 @@ class Layout:
             p = os.path.join(root, *rel.split("/"))
             os.makedirs(os.path.dirname(p), exist_ok=True)
             with open(p, "w") as f:
-                f.write(text)
+                f.write(materialise(text, root))
         return os.path.join(root, "b", "main.conf")
 
     def texts(self):
@@ -100,10 +104,31 @@ class Layout:
             for l in lines:
                 if isinstance(l, tuple):
                     ref = posixpath.relpath(l[1], posixpath.dirname(path))
+                    style = self.ref_styles.get(l[1], "rel")
+                    if style == "dot":
+                        ref = "./" + ref
+                    elif style == "abs":
+                        ref = ROOT_MARK + "/" + l[1]
+                    elif style == "url":
+                        ref = ROOT_URL_MARK + "/" + l[1]
                     l = l[2] + "%include " + ref
                 r.append(l)
             out[path] = "".join(x + "\n" for x in r)
         return out
+
+
+ROOT_MARK = "@ZCV-ROOT@"
+ROOT_URL_MARK = "@ZCV-ROOT-URL@"
+
+
+def materialise(text, root):
+    """Replace the markers of absolute references by the case root."""
+    if "@ZCV-ROOT" not in text:
+        return text
+    import urllib.request
+    return text.replace(ROOT_URL_MARK, "file://" +
+                        urllib.request.pathname2url(root)) \
+        .replace(ROOT_MARK, root)
 
 
 def _cut_into(rng, layout, lines, my_path, budget, ranges_fn):
@@ -114,6 +139,9 @@ def _cut_into(rng, layout, lines, my_path, budget, ranges_fn):
         return lines, budget
     i, j = rng.choice(ranges)
     frag_path, place = layout.new_path(rng)
+    if layout.styled:
+        layout.ref_styles[frag_path] = rng.choice(
+            ["rel", "rel", "rel", "dot", "abs", "url"])
     frag = list(lines[i:j])
     budget -= 1
     layout.cuts.append({"file": frag_path, "place": place,
@@ -127,10 +155,10 @@ def _cut_into(rng, layout, lines, my_path, budget, ranges_fn):
     return outer, budget
 
 
-def cut_text(rng, text, n_cuts=None, unbalanced=False):
+def cut_text(rng, text, n_cuts=None, unbalanced=False, styled=False):
     """-> Layout with 1..3 cuts (the first one unbalanced if requested)."""
     lines = refparse.split_lines(text)
-    layout = Layout()
+    layout = Layout(styled)
     budget = n_cuts or rng.randint(1, 3)
     main = lines
     if unbalanced:
